@@ -601,6 +601,56 @@ def nonascii_program(rng):
     return None, None
 
 
+def gen_axis_dimension(rng):
+    """PARAMETER / COMPUTATION / CALIBRATION-MEASUREMENT objects with axes: the number of axes and their coordinate counts agree
+    or disagree with the dimension, which is given, or left to be derived from the values at write time. Written twice."""
+    R0 = specgen
+    prog = [{'op': 'newfile', 'ident': 'MAIN-STORAGE-UNIT', 'seq': 1, 'vrl': rng.choice([128, 8192])},
+            {'op': 'lf', 'fh_id': R0.r_str('H'), 'fh_seq': R0.r_int(1)},
+            {'op': 'origin', 'lf': 0, 'name': R0.r_str('O'), 'set_name': None, 'origin': None, '_fh_id': 'H',
+             'kw': {'file_set_number': R0.r_int(1), 'creation_time': R0.r_str('2020/01/01 00:00:00')}},
+            {'op': 'channel', 'lf': 0, 'name': R0.r_str('CH'), 'set_name': None, 'origin': None, 'kw': {},
+             'data': {'dtype': 'float64', 'rows': 3, 'width': None, 'seed': rng.randrange(1 << 20)}},
+            {'op': 'frame', 'lf': 0, 'name': R0.r_str('FR'), 'set_name': None, 'origin': None, 'kw': {},
+             'channels': R0.r_list([R0.r_ref(1)])}]
+    created = 3
+    n_ax = rng.choice([1, 2, 3])
+    counts = []
+    for i in range(n_ax):
+        c = rng.choice([None, 1, 2, 3])
+        counts.append(c)
+        kw = {} if c is None else {'coordinates': R0.r_list([R0.r_float(R0.f_bits(float(j))) for j in range(c)])}
+        prog.append({'op': 'add', 'lf': 0, 'type': 'axis', 'name': R0.r_str('AX%d' % i), 'set_name': None, 'origin': None, 'kw': kw})
+    ax0 = created
+    created += n_ax
+    for _ in range(rng.choice([1, 1, 2])):
+        tk = rng.choice(['parameter', 'computation', 'calibration_measurement'])
+        shape = rng.choice([[], [], [2], [3], [2, 3]])
+
+        def val():
+            def mk(sh):
+                if not sh:
+                    return R0.r_float(R0.f_bits(float(rng.randrange(-5, 6))))
+                return R0.r_list([mk(sh[1:]) for _ in range(sh[0])])
+            return mk(shape)
+        nvals = 1 if tk == 'parameter' else rng.choice([1, 2])
+        vals = R0.r_list([val() for _ in range(nvals)])
+        k_ax = rng.choice([0, 1, len(shape) or 1, len(shape) or 1, n_ax])
+        k_ax = min(k_ax, n_ax)
+        kw = {'axis': R0.r_list([R0.r_ref(ax0 + j) for j in range(k_ax)])} if k_ax else {}
+        if tk == 'calibration_measurement':
+            for an in rng.sample(['standard', 'maximum_deviation', 'plus_tolerance'], rng.choice([1, 2])):
+                kw[an] = vals
+        else:
+            kw['values'] = vals
+        if rng.random() < 0.3:
+            kw['dimension'] = R0.r_list([R0.r_int(x) for x in rng.choice([shape or [1], [1], [2], [2, 3]])])
+        prog.append({'op': 'add', 'lf': 0, 'type': tk, 'name': R0.r_str('P'), 'set_name': None, 'origin': None, 'kw': kw})
+        created += 1
+    prog += [{'op': 'write'}, {'op': 'write'}]
+    return prog
+
+
 def gen_value_lists(rng, n=None, bad=None):
     """Multivalued integer attributes holding n values (1 .. 130, around 15/16/17), all in the range of their code or with
     ONE value outside it at a random position: the value layer above write_struct must neither wrap nor drop it."""
